@@ -143,6 +143,30 @@ theorem env_dq_render_partial_before_fix (v : List Char) (h : ∀ c, c ∈ v →
   rw [parse_dq_plain v [] [] [] h]
   simp [parseCmd]
 
+theorem wordOf_quote (f : List Char) : wordOf (shlexQuote f) = some f := by
+  unfold wordOf
+  have := quote_roundtrip [f] (by simp)
+  simp only [List.map, joinSp] at this
+  rw [this]
+
+/-- **redirections**: when the tool declares `stderr` (to a file other than its `stdout` file) the suffix StreamFlow
+appends makes the shell connect stdin / stdout / stderr exactly as the standard says, for every file name -/
+theorem redirects_eq_spec_partial (i o : Option (List Char)) (ef : List Char) (h : o ≠ some ef) :
+    interpSuffix (sfSuffix i o (some ef)) noStreams = some (specStreams i o (some ef)) := by
+  unfold sfSuffix specStreams noStreams
+  have hne : ¬ (some ef = o) := fun e => h e.symm
+  cases i <;> cases o <;> simp [interpSuffix, wordOf_quote, hne]
+
+/-- the full statement is **false of the code**: a tool with `stdout` and without `stderr` gets `2>&1` — its standard
+error is merged into the captured standard output instead of going to the runner's stderr (known finding
+`stdout:file-contains-stderr`) -/
+theorem redirects_eq_spec_false :
+    interpSuffix (sfSuffix none (some "out.txt".toList) none) noStreams ≠ some (specStreams none (some "out.txt".toList) none) := by
+  decide
+
+example : renderSuffix (sfSuffix (some "in put".toList) (some "out.txt".toList) (some "e'rr".toList)) =
+    " < 'in put' > out.txt 2>'e'\"'\"'rr'".toList := by decide
+
 /-- the extractor found the sort key and the `export K=<shlex.quote(v)>` template the model assumes -/
 theorem templates_as_modelled :
     Gen.CwlCmdTpl.envQuote = .shlex ∧ Gen.CwlCmdTpl.sortKeyPositionThenName = true := by decide
